@@ -1,9 +1,66 @@
-(* C06 — placeholder: theorems follow (StaticFsProofs). *)
-From Hv Require Import Prelude StaticFs.
-Example C06_example_traversal_refused :
-  let fs := Dir [([119;119;119], Dir [([97], File [1])]); ([115], File [9])] in
-  serve_as_file_path fs [47;119;119;119] [47;46;46;47;115] = R404 /\
-  serve_as_file_path_old fs [47;119;119;119] [47;46;46;47;115] = R200 [9] None /\
-  serve_as_file_path fs [47;119;119;119] [47;97] = R200 [1] None.
+(* C06 — static handlers never leave their directory. Property theorems only.
+   fs is ANY file tree (no symlinks), `directory` any configured directory string that resolves to location `root`,
+   `uri`/`route` ANY byte strings (dot-segments, percent-encodings, repeated slashes, NUL, absolute components ...). *)
+From Hv Require Import Prelude Bytes TablesHttp Http StaticFs StaticFsProofs.
+Open Scope N_scope.
+
+Theorem C06_serve_dir_confined :
+  forall (fs : node) (directory : bytes) (root : list bytes) (route uri body : bytes) (ct : option bytes),
+    walk fs [] (split_on SLASH (trim_end_slashes directory)) = Some root ->
+    serve_dir fs directory route uri = R200 body ct ->
+    exists loc, under root loc /\ node_at fs loc = Some (File body).
+Proof. exact serve_dir_confined. Qed.
+
+Theorem C06_directory_route_confined :
+  forall (fs : node) (directory : bytes) (root : list bytes) (matches uri body : bytes) (ct : option bytes),
+    walk fs [] (split_on SLASH (trim_end_slashes directory)) = Some root ->
+    directory_handler fs directory matches uri = R200 body ct ->
+    exists loc, under root loc /\ node_at fs loc = Some (File body).
+Proof. exact directory_handler_confined. Qed.
+
+Theorem C06_serve_as_file_path_confined :
+  forall (fs : node) (directory : bytes) (root : list bytes) (uri body : bytes) (ct : option bytes),
+    walk fs [] (split_on SLASH (match rev directory with 47 :: r => rev r | _ => directory end)) = Some root ->
+    serve_as_file_path fs directory uri = R200 body ct ->
+    exists loc, under root loc /\ node_at fs loc = Some (File body).
+Proof. exact serve_as_file_path_confined. Qed.
+
+(* the shared path finder only ever locates regular files under the directory *)
+Theorem C06_try_find_path_confined :
+  forall (fs : node) (directory rp : bytes) (root loc : list bytes),
+    walk fs [] (split_on SLASH (trim_end_slashes directory)) = Some root ->
+    try_find_path fs directory rp = Some (LFile loc) ->
+    under root loc /\ exists c, node_at fs loc = Some (File c).
+Proof. exact try_find_path_confined. Qed.
+
+(* before fix F14 serve_as_file_path escaped *)
+Theorem C06_serve_as_file_path_old_refuted :
+  exists fs directory root uri body,
+    walk fs [] (split_on SLASH directory) = Some root /\
+    serve_as_file_path_old fs directory uri = R200 body None /\
+    ~ (exists loc, under root loc /\ node_at fs loc = Some (File body)).
+Proof. exact serve_as_file_path_old_refuted. Qed.
+
+(* Non-vacuity and the positive direction on a concrete tree: files are served with content and MIME type, a directory
+   redirects without slash and serves index.html with it, traversal is refused. *)
+Example C06_example :
+  let fs := Dir [([119;119;119], Dir [([97;46;116;120;116], File [1;2]);
+                                      ([115], Dir [([105;110;100;101;120;46;104;116;109;108], File [7])])]);
+                 ([115;101;99], File [9])] in
+  let d := [47;119;119;119] in
+  walk fs [] (split_on SLASH (trim_end_slashes d)) = Some [[119;119;119]] /\
+  serve_dir fs d [47;42] [47;97;46;116;120;116] = R200 [1;2] (Some [116;101;120;116;47;112;108;97;105;110]) /\
+  serve_dir fs d [47;42] [47;115] = R301 [47;115;47] /\
+  serve_dir fs d [47;42] [47;115;47] = R200 [7] (Some [116;101;120;116;47;104;116;109;108]) /\
+  serve_dir fs d [47;42] [47;37;50;101;37;50;101;47;115;101;99] = R404 /\
+  serve_as_file_path fs d [47;46;46;47;115;101;99] = R404 /\
+  serve_as_file_path_old fs d [47;46;46;47;115;101;99] = R200 [9] None /\
+  directory_handler fs d [47;42] [47;97;46;116;120;116] = R200 [1;2] (Some [116;101;120;116;47;112;108;97;105;110]).
 Proof. vm_compute. repeat split. Qed.
-Print Assumptions C06_example_traversal_refused.
+
+Print Assumptions C06_serve_dir_confined.
+Print Assumptions C06_directory_route_confined.
+Print Assumptions C06_serve_as_file_path_confined.
+Print Assumptions C06_try_find_path_confined.
+Print Assumptions C06_serve_as_file_path_old_refuted.
+Print Assumptions C06_example.
